@@ -201,7 +201,7 @@ func parseWALPage(data []byte, baseOffset uint64, pageNum int) ([]WALRecord, err
 			break
 		}
 
-		rec, consumed := parseXLogRecord(data[pos:], header.PageAddr+uint64(pos))
+		rec, consumed := parseXLogRecord(data[pos:], header.PageAddr+uint64(pos), header.Magic)
 		if consumed == 0 {
 			break
 		}
@@ -235,7 +235,7 @@ func parsePageHeader(data []byte) *WALPageHeader {
 	return h
 }
 
-func parseXLogRecord(data []byte, lsn uint64) (*WALRecord, int) {
+func parseXLogRecord(data []byte, lsn uint64, magic uint16) (*WALRecord, int) {
 	if len(data) < XLogRecordSize {
 		return nil, 0
 	}
@@ -260,39 +260,34 @@ func parseXLogRecord(data []byte, lsn uint64) (*WALRecord, int) {
 
 	// Parse block references if present
 	if int(totalLen) > XLogRecordSize && int(totalLen) <= len(data) {
-		rec.Blocks = parseBlockRefs(data[XLogRecordSize:totalLen])
+		rec.Blocks = parseBlockRefsFor(data[XLogRecordSize:totalLen], magic)
 	}
 
 	return rec, int(totalLen)
 }
 
 func parseBlockRefs(data []byte) []WALBlockRef {
+	return parseBlockRefsFor(data, WAL_MAGIC_16)
+}
+
+// parseBlockRefsFor walks the XLogRecordBlockHeader entries at the start of a record's payload:
+// id, fork_flags, data_length u16, [image header: length u16, hole_offset u16, bimg_info u8,
+// [hole_length u16]], [RelFileNode unless BKPBLOCK_SAME_REL], block number.  The headers end where
+// only the announced block data and images remain (a record need not have a main-data header).
+func parseBlockRefsFor(data []byte, magic uint16) []WALBlockRef {
 	var blocks []WALBlockRef
+	var lastRel *RelFileNode
 	pos := 0
+	dataTotal := 0 // block data and images announced so far: they follow the headers, at the end of the record
 
-	for pos < len(data) {
-		if pos+1 > len(data) {
-			break
-		}
-
+	for pos+4 <= len(data) && len(data)-pos > dataTotal {
 		blockID := data[pos]
-		pos++
-
-		// Check for XLR_BLOCK_ID_DATA_SHORT or XLR_BLOCK_ID_DATA_LONG
-		if blockID == 0xFF || blockID == 0xFE {
-			break // End of block references
-		}
-
 		if blockID > 32 {
-			break // Invalid block ID
+			break // main data (255/254), origin (253) or top-level xid (252): no more block references
 		}
-
-		if pos+1 > len(data) {
-			break
-		}
-
-		forkFlags := data[pos]
-		pos++
+		forkFlags := data[pos+1]
+		dataTotal += int(binary.LittleEndian.Uint16(data[pos+2 : pos+4]))
+		pos += 4
 
 		block := WALBlockRef{
 			ID:      blockID,
@@ -300,13 +295,28 @@ func parseBlockRefs(data []byte) []WALBlockRef {
 			Flags:   uint16(forkFlags),
 		}
 
-		// Check if BKPBLOCK_HAS_DATA
-		hasImage := (forkFlags & 0x10) != 0
-		hasData := (forkFlags & 0x20) != 0
-		hasSameRel := (forkFlags & 0x40) != 0
+		if forkFlags&0x10 != 0 { // BKPBLOCK_HAS_IMAGE
+			if pos+5 > len(data) {
+				break
+			}
+			dataTotal += int(binary.LittleEndian.Uint16(data[pos : pos+2]))
+			bimgInfo := data[pos+4]
+			pos += 5
+			// BKPIMAGE_HAS_HOLE and compressed: a hole_length follows (compression bits moved in PG 15)
+			compressed := bimgInfo&0x1C != 0
+			if magic < WAL_MAGIC_15 {
+				compressed = bimgInfo&0x02 != 0
+			}
+			if bimgInfo&0x01 != 0 && compressed {
+				pos += 2
+			}
+		}
 
-		if !hasSameRel && pos+12 <= len(data) {
-			block.RelFileNode = &RelFileNode{
+		if forkFlags&0x80 == 0 { // not BKPBLOCK_SAME_REL
+			if pos+12 > len(data) {
+				break
+			}
+			lastRel = &RelFileNode{
 				SpcOID: binary.LittleEndian.Uint32(data[pos : pos+4]),
 				DbOID:  binary.LittleEndian.Uint32(data[pos+4 : pos+8]),
 				RelOID: binary.LittleEndian.Uint32(data[pos+8 : pos+12]),
@@ -314,22 +324,12 @@ func parseBlockRefs(data []byte) []WALBlockRef {
 			pos += 12
 		}
 
-		if pos+4 <= len(data) {
-			block.BlockNum = binary.LittleEndian.Uint32(data[pos : pos+4])
-			pos += 4
+		if pos+4 > len(data) {
+			break
 		}
-
-		// Skip image data
-		if hasImage && pos+2 <= len(data) {
-			imageLen := binary.LittleEndian.Uint16(data[pos : pos+2])
-			pos += 2 + int(imageLen)
-		}
-
-		// Skip block data
-		if hasData && pos+2 <= len(data) {
-			dataLen := binary.LittleEndian.Uint16(data[pos : pos+2])
-			pos += 2 + int(dataLen)
-		}
+		block.RelFileNode = lastRel
+		block.BlockNum = binary.LittleEndian.Uint32(data[pos : pos+4])
+		pos += 4
 
 		blocks = append(blocks, block)
 	}
